@@ -3,12 +3,15 @@ C04 — New capacity is opened only when existing capacity cannot admit the pod.
 
 Property theorems only (helper lemmas: `Karp/Proofs/ProvisionLemmas.lean`, `Karp/Proofs/Sched.lean`).
 Model: `Karp/Model/Provision.lean` (StateNode view, `Scheduler.add`, Synced gate) over `Karp/Model/Sched.lean`
-       (`ExistingNode.CanAdd/Add`, instance-type filter).
+       (`ExistingNode.CanAdd/Add`, instance-type filter); `Karp/Model/PodAcct.lean` (which pods cluster state charges to a
+       node across Pod / Node informer events; lemmas `Karp/Proofs/PodAcctLemmas.lean`, spec `Karp/Spec/Assigned.lean`,
+       tied to the code by `c04.account` and, through whole passes, `c04.churn`).
 Spec:  `Karp/Spec/NeedCapacity.lean` — evaluated by the driver on the commit traces of real passes and two-pass
        histories (ops `c04.history`, `c04.repass`, `c04.pass`); the model itself is tied to the code by `c04.view`,
        `c04.synced`, the replay inside `c04.history`/`c04.pass`, and `c01.existing`.
 -/
 import Karp.Proofs.ProvisionLemmas
+import Karp.Proofs.PodAcctLemmas
 
 namespace Karp.C04
 open Karp.Req Karp.Scn Karp.Sched Karp.Provision
@@ -70,6 +73,28 @@ theorem fact_ephemeral_table :
        ("node.kubernetes.io/unreachable", "NoSchedule"), ("node.cloudprovider.kubernetes.io/uninitialized", "NoSchedule"),
        ("karpenter.sh/unregistered", "NoExecute")] ∧
     knownEphemeralTaintKeyPrefixes = ["readiness.k8s.io/"] ∧ isKnownEphemeralTaintCalls = ["MatchTaint", "HasPrefix"] := by decide
+
+/-- "what is already assigned there": `UpdatePod` releases a pod exactly when it is in a TERMINAL PHASE (not when it merely
+    has a deletionTimestamp) and charges it otherwise; `DeletePod` releases it -/
+theorem fact_update_pod : updatePodConds = ["podutils.IsTerminal(pod)"] ∧
+    updatePodCalls = ["IsTerminal", "updateNodeUsageFromPodCompletion", "updateNodeUsageFromPod"] ∧
+    deletePodCalls = ["updateNodeUsageFromPodCompletion"] := by decide
+/-- every Node event REBUILDS the node's accounting from the pods the API lists for it, skipping exactly the pods in a
+    terminal phase — the same test `UpdatePod` uses, so a Node event cannot resurrect what a Pod event released -/
+theorem fact_rebuild : newStateFromNodeCalls = ["NewNode", "populateResourceRequests"] ∧
+    populateResourceRequestsConds = ["err != nil", "podutils.IsTerminal(pod)", "err != nil"] ∧
+    populateResourceRequestsCalls = ["List", "IsTerminal", "updateForPod", "cleanupOldBindings"] := by decide
+theorem fact_pod_phase_tests :
+    isTerminalReturns = ["pod.Status.Phase == corev1.PodFailed || pod.Status.Phase == corev1.PodSucceeded"] ∧
+    isTerminatingReturns = ["pod.DeletionTimestamp != nil"] := by decide
+/-- the binding bookkeeping the model `Karp.PodAcct` mirrors branch by branch -/
+theorem fact_usage_from_pod :
+    updateNodeUsageFromPodConds = ["pod.Spec.NodeName == \"\"", "!ok", "bindingKnown && oldNodeName != pod.Spec.NodeName", "err != nil"] ∧
+    updateNodeUsageFromPodCalls = ["updateNodeUsageFromPodCompletion", "updateNodeUsageFromPodCompletion", "updateForPod", "cleanupOldBindings"] ∧
+    podCompletionConds = ["!bindingKnown", "!ok"] ∧ podCompletionCalls = ["delete", "cleanupForPod"] ∧
+    cleanupOldBindingsConds = ["bindingKnown", "oldNodeName == pod.Spec.NodeName", "ok"] := by decide
+/-- releasing a pod on a node drops its host ports, volumes, requests, limits, daemonset requests / limits and cost together -/
+theorem fact_cleanup_for_pod : cleanupForPodCalls = ["DeletePod", "DeletePod", "delete", "delete", "delete", "delete", "delete"] := by decide
 
 /-! ## 1. The guard of OpenNew -/
 
@@ -540,5 +565,84 @@ example : Unlaunched "a" (run (sync0, []) [.create "a", .reconcile, .create "b",
 
 /-- deleting nodes -/
 example : (active [snRegistered, { snRegistered with marked := true }, { snRegistered with claim := some { claimA with deleting := true } }]).length = 1 := by decide
+
+/-! ## 7. What is already assigned to a node
+
+`Karp.PodAcct` models `Cluster.UpdatePod / DeletePod / UpdateNode / DeleteNode` with the binding bookkeeping; the theorems
+quantify over ALL histories of API changes (pods created, bound, finished, failed, terminating, removed, re-created under
+the same name on another node; nodes created and removed) and informer deliveries, in every interleaving. -/
+
+section Accounting
+open Karp.Spec.Assigned
+variable {κ ν : Type} [DecidableEq κ] [DecidableEq ν]
+
+/-- **C04_accounting_exact** — after any history, for every pod whose latest API change has been delivered (successfully:
+    not answered with "node not found, retry"), every node cluster state tracks is charged for the pod EXACTLY when the
+    pod is assigned to it by the independent reading `Karp.Spec.Assigned.assigned` (the object exists, is bound to the node
+    and is not in a terminal phase).  So what `ExistingNode` subtracts from the allocatable is what is really assigned
+    there — no pod that is over keeps room, none that still runs is forgotten — regardless of the order in which Pod and
+    Node events arrived. -/
+theorem C04_accounting_exact (evs : List (PodAcct.Ev κ ν)) (k : κ) (n : ν) :
+    (PodAcct.run PodAcct.St.init evs).dirty k = false → (PodAcct.run PodAcct.St.init evs).tracked n = true →
+    ((PodAcct.run PodAcct.St.init evs).acct n k = true ↔ assigned (PodAcct.run PodAcct.St.init evs).apiPod n k = true) :=
+  fun hd ht => (PodAcct.inv_run _ PodAcct.inv_init evs).exact k hd n ht
+
+/-- **C04_finished_pod_released** — a pod that reached a terminal phase and whose Pod event has been delivered is charged
+    to no tracked node, whatever Node events (each of which rebuilds the node from the API) came before or after -/
+theorem C04_finished_pod_released (evs : List (PodAcct.Ev κ ν)) (k : κ) (n : ν) (r : PodRec ν)
+    (hr : (PodAcct.run PodAcct.St.init evs).apiPod k = some r) (hterm : r.terminal = true)
+    (hd : (PodAcct.run PodAcct.St.init evs).dirty k = false) (ht : (PodAcct.run PodAcct.St.init evs).tracked n = true) :
+    (PodAcct.run PodAcct.St.init evs).acct n k = false := by
+  have h := C04_accounting_exact evs k n hd ht
+  have ha : assigned (PodAcct.run PodAcct.St.init evs).apiPod n k = false := by simp [assigned, hr, hterm]
+  cases hc : (PodAcct.run PodAcct.St.init evs).acct n k with
+  | false => rfl
+  | true => rw [h.mp hc] at ha; exact absurd ha (by decide)
+
+/-- **C04_terminating_pod_kept** — a pod that only has a deletionTimestamp (its containers still run) stays charged to its
+    tracked node: room is not handed out twice -/
+theorem C04_terminating_pod_kept (evs : List (PodAcct.Ev κ ν)) (k : κ) (n : ν) (r : PodRec ν)
+    (hr : (PodAcct.run PodAcct.St.init evs).apiPod k = some r) (hn : r.node = some n) (hterm : r.terminal = false)
+    (hd : (PodAcct.run PodAcct.St.init evs).dirty k = false) (ht : (PodAcct.run PodAcct.St.init evs).tracked n = true) :
+    (PodAcct.run PodAcct.St.init evs).acct n k = true :=
+  (C04_accounting_exact evs k n hd ht).mpr (by simp [assigned, hr, hn, hterm])
+
+/-- **C04_charged_once** — at every moment of every history a pod is charged to at most one node, the one its recorded
+    binding names (so following the binding releases everything) -/
+theorem C04_charged_once (evs : List (PodAcct.Ev κ ν)) (k : κ) (n n' : ν)
+    (h1 : (PodAcct.run PodAcct.St.init evs).acct n k = true) (h2 : (PodAcct.run PodAcct.St.init evs).acct n' k = true) : n = n' := by
+  have i := PodAcct.inv_run _ (PodAcct.inv_init (κ := κ) (ν := ν)) evs
+  exact Option.some.inj ((i.acct_binding n k h1).1.symm.trans (i.acct_binding n' k h2).1)
+
+/-- **C04_untracked_uncharged** — at every moment of every history, a node whose Node object cluster state does not hold
+    (never seen, or deleted: for a managed node only the NodeClaim half of its StateNode is left) is charged for nothing -/
+theorem C04_untracked_uncharged (evs : List (PodAcct.Ev κ ν)) (k : κ) (n : ν)
+    (ht : (PodAcct.run PodAcct.St.init evs).tracked n = false) : (PodAcct.run PodAcct.St.init evs).acct n k = false := by
+  have i := PodAcct.inv_run _ (PodAcct.inv_init (κ := κ) (ν := ν)) evs
+  cases hc : (PodAcct.run PodAcct.St.init evs).acct n k with
+  | false => rfl
+  | true => rw [(i.acct_binding n k hc).2] at ht; exact absurd ht (by decide)
+
+end Accounting
+
+/-- non-vacuity (pods and nodes numbered): node 0 is tracked, pod 7 runs there, finishes, its event is delivered, then two
+    Node events arrive — the hypotheses of `C04_finished_pod_released` hold and the pod had been charged before it finished -/
+def acctHistory : List (PodAcct.Ev Nat Nat) :=
+  [.nodeSet 0, .seeNode 0, .podSet 7 { node := some 0, terminal := false, terminating := false }, .seePod 7,
+   .podSet 7 { node := some 0, terminal := true, terminating := false }, .seePod 7, .seeNode 0, .seeNode 0]
+example : (PodAcct.run PodAcct.St.init (acctHistory.take 4)).acct 0 7 = true := by decide
+example : (PodAcct.run PodAcct.St.init acctHistory).dirty 7 = false ∧ (PodAcct.run PodAcct.St.init acctHistory).tracked 0 = true ∧
+    (PodAcct.run PodAcct.St.init acctHistory).acct 0 7 = false := by decide
+/-- the skip test of the rebuild matters: were it "has a deletionTimestamp" instead of "is in a terminal phase", the same
+    history would leave the finished pod charged to the node after the Node event (and `C04_accounting_exact` would fail) -/
+example : (PodAcct.runBy (fun r => r.terminating) PodAcct.St.init acctHistory).acct 0 7 = true := by decide
+/-- a terminating pod stays charged across Node events; a pod delivered before its node is tracked stays dirty -/
+example : (PodAcct.run PodAcct.St.init [.nodeSet 0, .seeNode 0, .podSet 7 { node := some 0, terminal := false, terminating := true }, .seePod 7, .seeNode 0]).acct 0 7 = true := by decide
+example : (PodAcct.run PodAcct.St.init [.podSet 7 { node := some (0 : Nat), terminal := false, terminating := false }, .seePod (7 : Nat)]).dirty 7 = true := by decide
+/-- a pod name re-used on another node: the old node is released when the new binding is seen -/
+example : let s := PodAcct.run PodAcct.St.init [.nodeSet 0, .seeNode 0, .nodeSet 1, .seeNode 1,
+      .podSet 7 { node := some 0, terminal := false, terminating := false }, .seePod 7, .podGone 7,
+      .podSet 7 { node := some 1, terminal := false, terminating := false }, .seePod 7]
+    s.acct 0 7 = false ∧ s.acct 1 7 = true := by decide
 
 end Karp.C04
